@@ -20,6 +20,7 @@ const (
 	KSparse        // "hit" iff i mod K == R, else "miss"
 	KTwo           // (i mod K) for even i, (i div K) for odd i
 	KUnique        // one value per row
+	KLen           // length sweep: len(name)+len(value) = K + (i/10)%R, siblings differ in their last byte only
 	kKinds
 )
 
@@ -91,6 +92,21 @@ func (c *ColSpec) value(i int) string {
 		}
 	case KUnique:
 		x = i
+	case KLen:
+		// zero-padded decimal of i so that column name + value have a combined
+		// length that sweeps K .. K+R-1 (buffer-size boundaries such as 16, 32,
+		// 64, 128, 256 lie inside the windows the generators choose); ten
+		// consecutive rows share everything but the last byte
+		span := c.R
+		if span < 1 {
+			span = 1
+		}
+		want := c.K + (i/10)%span - len(c.Name) - len(c.Prefix)
+		d := fmt.Sprintf("%d", i)
+		if want > len(d) {
+			d = strings.Repeat("0", want-len(d)) + d
+		}
+		return c.Prefix + d
 	}
 	return fmt.Sprintf("%s%d", c.Prefix, x)
 }
@@ -159,7 +175,7 @@ func (s *DataSpec) Summary() string {
 	return b.String()
 }
 
-var kindName = []string{"const", "mod", "div", "sparse", "two", "unique"}
+var kindName = []string{"const", "mod", "div", "sparse", "two", "unique", "lensweep"}
 var presName = []string{"always", "modnot", "prefix", "notlast"}
 
 func FmtRow(r model.Row) string {
@@ -295,6 +311,9 @@ func Explicit(t *rapid.T, o DataOpts) *DataSpec {
 	return &DataSpec{Explicit: rows}
 }
 
+// LenWindows are the starts of the 40-wide windows a KLen column sweeps.
+var LenWindows = []int{1, 41, 81, 121, 161, 201, 241}
+
 var boundaryN = []int{0, 1, 2, 3, 999, 1000, 1001, 1002, 2000, 2001, 4095, 4096, 4097, 65535, 65536, 65537, 131071, 131072, 131073}
 
 // RecipeN draws a row count, biased to the boundaries the code cares about.
@@ -313,9 +332,16 @@ func RecipeN(t *rapid.T, max int) int {
 
 func RecipeCol(t *rapid.T, name string, n int) ColSpec {
 	c := ColSpec{Name: name}
-	c.Kind = rapid.IntRange(0, kKinds-2).Draw(t, "kind") // unique only on request
+	c.Kind = rapid.IntRange(0, KUnique-1).Draw(t, "kind") // unique only on request
+	if rapid.IntRange(0, 5).Draw(t, "lensweep") == 0 {
+		c.Kind = KLen
+	}
 	c.K = rapid.SampledFrom([]int{1, 2, 3, 7, 10, 64, 100, 999, 1000, 1001, 1500, 4096, 5000, 65536}).Draw(t, "k")
 	c.R = rapid.IntRange(0, 9).Draw(t, "r")
+	if c.Kind == KLen {
+		c.K = rapid.SampledFrom(LenWindows).Draw(t, "lenwin")
+		c.R = 40
+	}
 	c.Prefix = rapid.SampledFrom([]string{"", "v", "\xff", "é\"", "x\n"}).Draw(t, "pfx")
 	c.Pres = rapid.SampledFrom([]int{PAlways, PAlways, PModNot, PPrefix, PNotLast}).Draw(t, "pres")
 	switch c.Pres {
